@@ -417,24 +417,14 @@ type voice struct {
 	flat *Flat
 }
 
-// knownSig classifies failures of the struct-tag-only twins of the proto3 generations whose tags do not
-// yet carry the `proto3` token (before 2018-08-14): aberrantLoadMessageDesc recognises the message as
-// proto3 from its Go scalar types, but its fields keep the proto2 features tag.Unmarshal gave them.
-func (v *voice) knownSig() string {
-	if v.kind == "twin" && v.gen.Syntax == "proto3" && v.gen.Dir < "proto3_20180814" {
-		return "aberrant-proto3-fields-keep-proto2-features"
-	}
-	return ""
-}
-
-// twinWitness replays the witness of the known finding `aberrant-proto3-fields-keep-proto2-features` on a
-// twin: optional_sfixed32 (108) = -1 and nothing else.  The twin must marshal to e506ffffffff like the
-// same struct seen through its raw descriptor, and its scalar fields must have implicit presence like the
-// raw descriptor says.  Returns true if the defect shows (and reports it, once per generation, with the
-// finding's signature when the generation is one the classifier covers).
+// twinWitness replays (corpus first) the witness of a defect repaired in /repo 30a2116 (proto3 fields derived
+// from tags without the `proto3` token kept proto2 features): optional_sfixed32 (108) = -1 and nothing else.
+// The twin must marshal to e506ffffffff like the same struct seen through its raw descriptor, and its fields
+// must have the presence discipline the raw descriptor says.  A recurrence is an unclassified failure
+// (VIOLATION); the twin is then left out of the random comparisons, which would only repeat the report.
 func twinWitness(c *vh.Ctx, v *voice, raw protoreflect.MessageDescriptor) (defective bool) {
 	in := map[string]any{"type": "Message", "voice": v.name, "content": "( 108 s n 18446744073709551615 u - )"}
-	defer c.Recover("twin witness", in, v.knownSig())
+	defer c.Recover("twin witness", in, "")
 	m := v.mk()
 	fd := m.Descriptor().Fields().ByNumber(108)
 	rfd := raw.Fields().ByNumber(108)
@@ -463,7 +453,7 @@ func twinWitness(c *vh.Ctx, v *voice, raw protoreflect.MessageDescriptor) (defec
 	if len(what) == 0 {
 		return false
 	}
-	c.Check(false, "struct-tag-only proto3 message: "+strings.Join(what, "; "), in, v.knownSig())
+	c.Check(false, "struct-tag-only message: "+strings.Join(what, "; "), in, "")
 	return true
 }
 
@@ -576,9 +566,9 @@ func legacyType(c *vh.Ctx, gens []*legacyGen, name string) {
 			tw := mk()
 			tv := &voice{name: g.Dir + "/struct-tag-twin", gen: g, kind: "twin", mk: mk, flat: Flatten(tw.Descriptor(), protoregistry.GlobalTypes)}
 			if twinWitness(c, tv, mt.Descriptor()) {
-				// known finding reproduced on this twin (reported once, with the witness): its descriptor is
-				// inconsistent, comparing random contents through it would only repeat the report
-				c.Hist("twin:excluded-known-finding")
+				// the witness failed on this twin (reported with the witness): its descriptor is inconsistent,
+				// comparing random contents through it would only repeat the report
+				c.Hist("twin:excluded-after-witness-failure")
 				continue
 			}
 			voices = append(voices, tv)
@@ -594,7 +584,7 @@ func legacyType(c *vh.Ctx, gens []*legacyGen, name string) {
 			in := map[string]any{"type": name, "voice": v.name, "content": "( u - )"}
 			defer c.Recover("empty message", in, "")
 			b, err := detPartial.Marshal(v.mk().Interface())
-			c.Check(err == nil && len(b) == 0, fmt.Sprintf("the empty message of %s marshals to %d bytes: %s", v.name, len(b), vh.Hex(b)), in, v.knownSig())
+			c.Check(err == nil && len(b) == 0, fmt.Sprintf("the empty message of %s marshals to %d bytes: %s", v.name, len(b), vh.Hex(b)), in, "")
 		}()
 	}
 	// the schema as the model sees it must be the same for every voice
@@ -739,7 +729,7 @@ func legacyType(c *vh.Ctx, gens []*legacyGen, name string) {
 			in2 := map[string]any{"type": name, "content": snap, "voice": o.v.name, "reference": r0.v.name}
 			if !bytes.Equal(o.det, r0.det) {
 				in2["bytes"], in2["reference_bytes"] = vh.Hex(o.det), vh.Hex(r0.det)
-				c.Check(false, "deterministic bytes of "+o.v.name+" differ from "+r0.v.name, in2, o.v.knownSig())
+				c.Check(false, "deterministic bytes of "+o.v.name+" differ from "+r0.v.name, in2, "")
 			}
 			c.Check((o.jsErr == nil) == (r0.jsErr == nil), "protojson.Marshal verdict differs", in2, "")
 			if o.jsErr == nil && r0.jsErr == nil {
